@@ -20,7 +20,9 @@ def tsan_signatures(err):
         kind = blk.split(" ", 2)[0] + "-" + blk.split(" ", 2)[1] if blk.startswith("data race") else blk.split("(")[0].strip().replace(" ", "-")
         kind = "data-race" if blk.startswith("data race") else kind
         m = re.search(r"Location is global '([^']+)'", blk)
-        if m and m.group(1) != "??":
+        if re.search(r"\b(localtime|localtime_r|tzset_internal|__tz_convert|__tzfile_\w+|tzset)\b", blk):
+            s = "tsan:%s:libc-localtime-static-buffer" % kind
+        elif m and m.group(1) != "??":
             s = "tsan:%s:global:%s" % (kind, m.group(1))
         else:
             fr = None
